@@ -644,6 +644,13 @@ def detry(t):
     if t[0] == 'vfield' and t[2] == 'Ok' and t[3] == '0':
         # the Ok payload read after a test of the discriminant: the success value, as with `?`
         return success_payload(detry(t[1]))
+    if t[0] == 'vfield' and t[2] == 'Some' and t[3] == '0':
+        # Some payload of `result.ok()` (or of a merge of that with `?` residuals): the success value of the result
+        inner = success_payload(detry(t[1]))
+        k = m_call(inner, name='ok', self_suffix='Result') if isinstance(inner, tuple) else None
+        if k is not None and len(k) == 1 and strip_generics(inner[1]) == 'core::result::Result::ok':
+            return k[0]
+        return ('vfield', inner, t[2], t[3]) if inner is not t[1] else tuple(detry(x) if isinstance(x, tuple) else x for x in t)
     return tuple(detry(x) if isinstance(x, tuple) else x for x in t)
 
 
@@ -653,8 +660,14 @@ def success_payload(x):
     if isinstance(x, tuple) and x:
         if x[0] == 'agg' and x[2] in ('Ok', 'Some') and (x[1].endswith('Result') or x[1].endswith('Option')) and len(x[3]) == 1:
             return x[3][0]
+        if x[0] == 'call' and strip_generics(x[1]) == 'core::result::Result::ok' and len(x[2]) == 1:
+            return success_payload(x[2][0])      # r.ok()? : the success value of r
         if x[0] == 'phi':
-            alts = [a for a in x[1] if not (isinstance(a, tuple) and a and a[0] == 'agg' and a[2] in ('Err', 'None') and (a[1].endswith('Result') or a[1].endswith('Option')))]
+            def failure(a):
+                if isinstance(a, tuple) and a and a[0] == 'agg' and a[2] in ('Err', 'None') and (a[1].endswith('Result') or a[1].endswith('Option')):
+                    return True
+                return m_call(a, name='from_residual') is not None      # the value a failed `?` hands to the caller
+            alts = [a for a in x[1] if not failure(a)]
             if alts and len(alts) < len(x[1]) or any(isinstance(a, tuple) and a and a[0] == 'agg' and a[2] in ('Ok', 'Some') for a in alts):
                 pay = []
                 for a in alts:
